@@ -9,7 +9,7 @@ BOUNDS = {
              "of K or M by 1 and 2, two-finger and leader-follower intersection; operands built both canonically and with explicit zeros / all-zero rows",
     "thorough": "matrix-vector 3x3 and 2x4, matrix-matrix 2x3x2, tilings by 3, every concrete pattern of the second operand",
 }
-OUTSIDE = "boxes larger than the bound; both factors symbolic at once (products must stay linear); float values"
+OUTSIDE = "boxes larger than the bound; both factors symbolic at once (products must stay linear); float values; tiling a lower rank of an operand that stores all-default sub-fibers (explicit all-zero rows): that is the region of known finding F16, reported under C02/C08/C09"
 ASSUMPTIONS = ["A1 integers only", "S1, S2"]
 
 
@@ -86,6 +86,8 @@ def obligations(tier):
         for variant in ("MK", "KM", "MK1K0/1", "MK1K0/2", "M1M0K/1", "M1M0K/2"):
             for style in ("2f", "lf"):
                 for explicit in ((False, True) if variant in ("MK", "KM") or not q else (False,)):
+                    if explicit and variant.startswith("MK1K0"):
+                        continue      # tiling a lower rank of an operand that holds all-default sub-fibers: region of known finding F16 (C02/C08/C09)
                     add("mv", variant, [2, 3], B, style, explicit)
     for variant in ("MK", "KM", "MK1K0/2"):
         add("mv", variant, None, None, "2f", False, sym="B", A=[[2, 0, 3], [0, 0, 3]], bdims=[3])
